@@ -14,6 +14,15 @@ Abstract ops (JSON lists):
   ["raise"]                   (inside a withx body) `raise TypeError`
   ["update", old, new, prio, defaults]   direct call update(old, new, priority=prio, defaults=defaults)
   ["merge", [dict, ...]]      direct call merge(*dicts)
+Round 3:
+  ["block", x, arg, kw, body] statement tree: `with set(arg, **kw): body`, body a list of statement trees
+                              (plain ops, blocks, reuse); x true: the first exception leaves the block
+  ["reuse", arg, kw, b1, b2]  cm = set(arg, **kw); with cm: b1; with cm: b2
+  ["ckv", depr, alias, key, value]                 check_key_val with the two tables installed
+  ["set_t", depr, alias, arg, kw, conf]            set(arg, config=conf, **kw) with the tables installed
+  ["update_t", depr, alias, old, new, prio, dfl]   update(...) with the tables installed
+  ["collect_env", env]                             collect_env(env), values given as Python literals
+  depr: {key: new name | None}; alias: {key: [[value, replacement], ...]} (scalars)
 """
 from __future__ import annotations
 
@@ -141,6 +150,31 @@ def cop(o) -> str:
     return "(Do %s)" % csop(o)
 
 
+def cjval(v) -> str:
+    c = ccfg(v)
+    assert c.startswith("(Leaf "), v
+    return c[len("(Leaf "):-1]
+
+
+def cdepr(depr) -> str:
+    return "[%s]" % "; ".join("(%s, %s)" % (cstr(k), "None" if v is None else "(Some %s)" % cstr(v)) for k, v in depr.items())
+
+
+def calias(alias) -> str:
+    return "[%s]" % "; ".join("(%s, [%s])" % (cstr(k), "; ".join("(%s, %s)" % (cjval(a), cjval(b)) for a, b in tbl))
+                              for k, tbl in alias.items())
+
+
+def cstmt(t) -> str:
+    if t[0] == "block":
+        return "(Block %s %s %s [%s])" % ("true" if t[1] else "false", carg(t[2]), citems(t[3]),
+                                          "; ".join(cstmt(b) for b in t[4]))
+    if t[0] == "reuse":
+        return "(Reuse %s %s [%s] [%s])" % (carg(t[1]), citems(t[2]), "; ".join(cstmt(b) for b in t[3]),
+                                            "; ".join(cstmt(b) for b in t[4]))
+    return "(Plain %s)" % csop(t)
+
+
 def cstore(conf, dflts) -> str:
     return "{| conf := %s; dflts := [%s] |}" % (citems(conf), "; ".join(citems(d) for d in dflts))
 
@@ -218,6 +252,14 @@ def _tmp_root():
     return _TMP_ROOT
 
 
+# handed to every refresh as `env=` (and exported into os.environ of the globals subprocess): collect() takes the
+# mapping and — today — does not read it; were collect_env switched on, these would show up in the store
+ENV_PROBE = {"QUANTEM_ALPHA": "99", "QUANTEM_DTYPE_REAL": "'envfloat'", "QUANTEM_VIZ__CMAP": "'envcmap'",
+             "QUANTEMALPHA": "98", "QUANQUANTEM_ALPHA": "97", "QUANTEM_DEVICE": "'cuda:7'",
+             "QUANQUANTEM_VIZ__CMAP": "'envcmap2'"}
+DFLT_TOKEN = "<dflt>"
+
+
 class Impl:
     """runs abstract ops on quantem.core.config; private pair or module globals"""
 
@@ -244,6 +286,19 @@ class Impl:
     def get(self, key):
         try:
             return ("ok", sort_tree(to_abstract(self.C.get(key, **self.kw()))))
+        except Exception as e:  # noqa
+            return ("err", classify(e))
+
+    def get_full(self, key, mode):
+        """mode "d": get(key, default); "o": get(key, override_with=5); "n": get(key, default, override_with=None)"""
+        try:
+            if mode == "d":
+                r = self.C.get(key, DFLT_TOKEN, **self.kw())
+            elif mode == "o":
+                r = self.C.get(key, override_with=5, **self.kw())
+            else:
+                r = self.C.get(key, DFLT_TOKEN, override_with=None, **self.kw())
+            return ("ok", sort_tree(to_abstract(r)))
         except Exception as e:  # noqa
             return ("err", classify(e))
 
@@ -286,9 +341,9 @@ class Impl:
                     C.update_defaults(copy.deepcopy(o[1]), config=self.config, defaults=self.defaults)
             elif o[0] == "refresh":
                 if self.use_globals:
-                    C.refresh(path=self._yaml_dir(o[1]))
+                    C.refresh(path=self._yaml_dir(o[1]), env=dict(ENV_PROBE))
                 else:
-                    C.refresh(config=self.config, defaults=self.defaults, path=self._yaml_dir(o[1]))
+                    C.refresh(config=self.config, defaults=self.defaults, path=self._yaml_dir(o[1]), env=dict(ENV_PROBE))
             else:
                 raise ValueError(o)
 
@@ -328,6 +383,81 @@ class Impl:
         return obs
 
 
+    # -- statement trees (round 3): nested with-blocks, a context manager entered twice -------------
+    def stmt_raise(self, t, observe, obs):
+        """runs one statement tree, appending an observation after every step (enter, body statements
+        recursively, exit); an exception that leaves the statement is re-raised"""
+        if t[0] not in ("block", "reuse"):
+            try:
+                self.sop_raise(t)
+            except Exception as e:  # noqa
+                obs.append(observe(classify(e)))
+                raise
+            obs.append(observe(None))
+            return
+        arg, kw = (t[2], t[3]) if t[0] == "block" else (t[1], t[2])
+        try:
+            cm = self.make_set(arg, kw)
+        except Exception as e:  # noqa
+            obs.append(observe(classify(e)))
+            raise
+        bodies = [(t[1], t[4])] if t[0] == "block" else [(False, t[3]), (False, t[4])]
+        for x, body in bodies:
+            try:
+                with cm:
+                    obs.append(observe(None))
+                    for b in body:
+                        if x:
+                            self.stmt_raise(b, observe, obs)
+                        else:
+                            try:
+                                self.stmt_raise(b, observe, obs)
+                            except Exception:  # noqa
+                                pass
+            except Exception as e:  # noqa  (left by the body's exception, or raised by __exit__)
+                obs.append(observe(classify(e)))
+                raise
+            obs.append(observe(None))
+
+    def stmt(self, t, observe):
+        obs = []
+        try:
+            self.stmt_raise(t, observe, obs)
+        except Exception:  # noqa
+            pass
+        return obs
+
+
+def stmt_sops(t):
+    """the plain statements / set arguments of a statement tree, as flat ops (for touched_keys)"""
+    if t[0] == "block":
+        yield ["set", t[2], t[3]]
+        for b in t[4]:
+            yield from stmt_sops(b)
+    elif t[0] == "reuse":
+        yield ["set", t[1], t[2]]
+        for b in t[3] + t[4]:
+            yield from stmt_sops(b)
+    elif t[0] != "raise":
+        yield t
+
+
+def probes(keys):
+    """(key, mode) of the get-with-default / override_with observations made after every step"""
+    ps = [(k, "d") for k in keys]
+    if keys:
+        ps += [(keys[0], "o"), (keys[0], "n"), (keys[0] + ".zz", "d")]
+    return ps
+
+
+def cprobe(k, mode) -> str:
+    if mode == "d":
+        return "(%s, Some (Leaf (JStr %s)), None)" % (cstr(k), cstr(DFLT_TOKEN))
+    if mode == "o":
+        return "(%s, None, Some (Leaf (JInt 5%%Z)))" % cstr(k)
+    return "(%s, Some (Leaf (JStr %s)), Some (Leaf JNone))" % (cstr(k), cstr(DFLT_TOKEN))
+
+
 def touched_keys(ops, limit=14):
     """key strings whose `get` is compared after every statement: every key used by a set
     (keyword keys after the __ -> . replacement), every leaf path of an update_defaults
@@ -340,6 +470,10 @@ def touched_keys(ops, limit=14):
                 ks.append(s)
 
     def visit(o):
+        if o[0] in ("block", "reuse"):
+            for b in stmt_sops(o):
+                visit(b)
+            return
         if o[0] in ("set", "with", "withx"):
             arg = o[1]
             if isinstance(arg, dict) and set(arg) != {"__bad__"}:
@@ -363,7 +497,17 @@ def touched_keys(ops, limit=14):
     for o in ops:
         visit(o)
     add("device")
-    return ks[:limit]
+    ks = ks[:limit]
+    # round 3: dotted keys that continue below whatever the first keys hold (TypeError below a
+    # scalar, KeyError below a mapping) and the parent of the first dotted key
+    extra = [ks[0] + ".zz", "device.index"]
+    dotted = [k for k in ks if "." in k]
+    if dotted:
+        extra.append(dotted[0].rsplit(".", 1)[0])
+    for k in extra:
+        if k not in ks:
+            ks.append(k)
+    return ks
 
 
 def run_impl(ops, keys, use_globals=False, init_conf=None, init_dflts=None, impl=None):
@@ -371,9 +515,37 @@ def run_impl(ops, keys, use_globals=False, init_conf=None, init_dflts=None, impl
     {"tree", "out", "gets", "ndflts"}; plus the final defaults list"""
     im = impl or Impl(use_globals, init_conf, init_dflts)
 
+    ps = probes(keys)
+
     def observe(out):
         return {"tree": im.snapshot(), "out": out, "gets": [im.get(k) for k in keys],
-                "ndflts": len(im.defaults)}
+                "gets2": [im.get_full(k, m) for k, m in ps], "ndflts": len(im.defaults)}
 
-    tr = [im.op(o, observe) for o in ops]
+    tr = [(im.stmt(o, observe) if o[0] in ("block", "reuse") else im.op(o, observe)) for o in ops]
     return tr, im.dflts_snapshot()
+
+
+# ------------------------------------------------------------------------------ tables of check_key_val
+class Tables:
+    """installs deprecations / aliases into quantem.core.config for the duration of a call: the
+    `deprecations` dict is bound as a default argument of check_key_val (so it is mutated in place),
+    `aliases` is read as a module global"""
+
+    def __init__(self, depr, alias):
+        from quantem.core import config as C
+        self.C, self.depr, self.alias = C, depr, alias
+
+    def __enter__(self):
+        import warnings
+        self.w = warnings.catch_warnings()
+        self.w.__enter__()
+        warnings.simplefilter("ignore")
+        self.C.deprecations.clear()
+        self.C.deprecations.update(self.depr)
+        self.C.aliases.clear()
+        self.C.aliases.update({k: {a: b for a, b in tbl} for k, tbl in self.alias.items()})
+
+    def __exit__(self, *a):
+        self.C.deprecations.clear()
+        self.C.aliases.clear()
+        self.w.__exit__(*a)
